@@ -34,7 +34,7 @@ def check(ctx):
               "distinct_nontrivial = distinct histories" % ("2" if quick else "3", results["fault"]["counters"].get("inject_fail", 0),
                                                             results["fault"]["counters"].get("inject_short", 0))),
         samples=results["fault"]["samples"][:2] + results["dfs"]["samples"][:1],
-        traces_validated_against_impl=len(recs), runs_by_mode={t: r["counters"] for t, r in results.items()},
+        traces_validated_against_impl=len(recs), distinct_api_histories_decided_by_tlc=getattr(ctx, "register_histories", 0), runs_by_mode={t: r["counters"] for t, r in results.items()},
         bug_configs_rejected_by_tlc=bugs, exhaustive=(results["dfs"]["counters"].get("dfs_truncated", 0) == 0))
     return conclude(ctx, violations, "model_checking", coverage, ASSUME)
 
